@@ -314,6 +314,14 @@ impl S3 for FileSystem {
 
         let object_metadata = self.load_metadata(&input.bucket, &input.key, None).await?;
 
+        // the same ETag as get_object returns (a directory has none)
+        let e_tag = if file_metadata.is_file() {
+            let md5_sum = self.get_md5_sum(&input.bucket, &input.key).await?;
+            Some(format!("\"{md5_sum}\""))
+        } else {
+            None
+        };
+
         // TODO: detect content type
         let content_type = mime::APPLICATION_OCTET_STREAM;
 
@@ -322,6 +330,7 @@ impl S3 for FileSystem {
             content_type: Some(content_type),
             last_modified: Some(last_modified),
             metadata: object_metadata,
+            e_tag,
             ..Default::default()
         };
         Ok(S3Response::new(output))
